@@ -12,8 +12,10 @@ The value type is abstract: a ring for `+ - neg`, a semiring for `*`, an additiv
 `1 ≠ 0` for logic and `== !=`, additionally a linear order for `< <= > >=`, and an abstract
 division for `/` whose behaviour at zero (`0/0 = nan`, `0/y = 0`, `x/y ≠ 0`) enters as explicit
 hypotheses that are proved for the extended rationals (`C03_xrat_*`) at which the driver
-executes the division model.  Only property theorems and examples here; proofs are in
-Lemmas/SparseElem*.lean.
+executes the division model.  Kruskal and Tucker operands (`Ops/SparseElemKruskal.lean`) are
+outside the letter of C03: `S * K` is the dense product, `S / K` is modelled and proved as coded
+(divisor `max(eps, K[j])` on the stored pattern of `S`), the other combinations are refused.
+Only property theorems and examples here; proofs are in Lemmas/SparseElem*.lean.
 -/
 import PyttbModel.Lemmas.SparseElemOrder
 import PyttbModel.Lemmas.SparseElemKruskal
